@@ -585,6 +585,7 @@ func init() {
 	intrinsics[zz+"Implies"] = func(st *pstate, fr *frame, fn *ssa.Function, args []value) value {
 		return mkBool(st.nameBool(tOr(tNot(boolTerm(args[0])), boolTerm(args[1]))))
 	}
+	intrinsics[zz+"Failed"] = func(st *pstate, fr *frame, fn *ssa.Function, args []value) value { return false }
 	intrinsics[zz+"Skip"] = func(st *pstate, fr *frame, fn *ssa.Function, args []value) value { return nil }
 	intrinsics[zz+"FreezeNative"] = func(st *pstate, fr *frame, fn *ssa.Function, args []value) value { return nil }
 }
